@@ -393,8 +393,11 @@ def worker_fact(cx, owner, fn):
                         # resolve `if connection.restart_offset: x = "r+b" else: x = mode`
                         found = []
                         for m in own_nodes(fn):
-                            if isinstance(m, ast.If) and is_attr(m.test, "connection", "restart_offset"):
-                                for br, tag in ((m.body, "restart:"), (m.orelse, "norestart:")):
+                            # the offset the worker reads: the dispatcher's hand-over slot (transfer_offset) in the
+                            # repaired source, restart_offset itself in the old one (the dispatcher facts say which)
+                            if isinstance(m, ast.If) and (is_attr(m.test, "connection", "restart_offset") or is_attr(m.test, "connection", "transfer_offset")):
+                                kind = "restart" if is_attr(m.test, "connection", "restart_offset") else "handed"
+                                for br, tag in ((m.body, kind + ":"), (m.orelse, "no" + kind + ":")):
                                     for s_ in br:
                                         if isinstance(s_, ast.Assign) and isinstance(s_.targets[0], ast.Name) and s_.targets[0].id == k.value.id:
                                             v = s_.value
@@ -569,7 +572,32 @@ def dispatcher_facts(cx):
     task_exc = [(src(h.type) if h.type else "BaseException", except_actions(h)) for h in inner.handlers]
     # restart offset reset
     exempt = None
+    handed = []
     unknown = None
+    # repaired shape: `if cmd in (...): connection.transfer_offset = connection.restart_offset` directly followed
+    # by an unconditional `connection.restart_offset = 0` (no verb exempt; the offset is handed to the listed verbs)
+    for n in ast.walk(disp):
+        for blk in (getattr(n, "body", None), getattr(n, "orelse", None)):
+            if not isinstance(blk, list):
+                continue
+            for i, st in enumerate(blk):
+                if isinstance(st, ast.stmt) and src(st) == "connection.restart_offset = 0" and not (
+                    isinstance(n, ast.If) and isinstance(n.test, ast.Compare) and isinstance(n.test.ops[0], ast.NotIn)
+                ):
+                    prev = blk[i - 1] if i > 0 else None
+                    if (
+                        isinstance(prev, ast.If)
+                        and isinstance(prev.test, ast.Compare)
+                        and isinstance(prev.test.left, ast.Name)
+                        and prev.test.left.id == "cmd"
+                        and isinstance(prev.test.ops[0], ast.In)
+                        and not prev.orelse
+                        and [src(x) for x in prev.body] == ["connection.transfer_offset = connection.restart_offset"]
+                    ):
+                        exempt = []
+                        handed = list(ast.literal_eval(prev.test.comparators[0]))
+                    else:
+                        raise Unclassified("dispatcher: unconditional restart_offset reset without the hand-over to transfer commands")
     false_ends = False
     for n in ast.walk(disp):
         if isinstance(n, ast.If):
@@ -602,7 +630,7 @@ def dispatcher_facts(cx):
     pr = lambda l: "[" + "; ".join(f"({S(a)}, {slist(b)})" for a, b in l) + "]"
     return table, (
         "{| d_table := [%s];\n     d_table_literal := %s;\n     d_task_except := %s;\n     d_outer_except := %s;\n"
-        "     d_finally := %s;\n     d_reset_exempt := %s; d_unknown_code := %s; d_false_ends := %s;\n"
+        "     d_finally := %s;\n     d_reset_exempt := %s; d_offset_handed := %s; d_unknown_code := %s; d_false_ends := %s;\n"
         "     d_initial_pending := %s; d_conn_init := %s |}"
         % (
             "; ".join(f"({S(k)}, {S(v)})" for k, v in table),
@@ -611,6 +639,7 @@ def dispatcher_facts(cx):
             pr(outer),
             slist(fin),
             slist(exempt),
+            slist(handed),
             S(unknown),
             emit.boolean(false_ends),
             slist(pend),
